@@ -352,6 +352,7 @@ def run(tier):
         if pmeta:
             argument_checks(R, graphql, schema, u, pmeta, calls, aliaser, gen, info, rng)
         pyrun.drop_module(mod)
+    flatten_and_null_probe(R)
     apischema.cache.reset()
     T = "bool * gty * gdefault * string"
     bad, errs = core.run_coq_shards("C19", HEADER, items,
@@ -461,6 +462,79 @@ def argument_checks(R, graphql, schema, u, pmeta, calls, aliaser, gen, info, rng
                 R.violation(f"invalid argument {broken} accepted", dict(info, query=query, data=res.data))
             if calls:
                 R.violation(f"the resolver was invoked although argument {broken} is invalid", dict(info, query=query))
+
+
+FLAT_SRC = '''
+from dataclasses import dataclass, field
+from typing import Optional, List
+from apischema.metadata import flatten
+
+@dataclass
+class Tag:
+    name: str
+
+@dataclass
+class Leaf:
+    leaf_value: int
+    leaf_opt: Optional[str] = None
+    tag: Optional[Tag] = None
+
+@dataclass
+class Middle:
+    middle_value: str
+    leaf: Leaf = field(metadata=flatten)
+
+@dataclass
+class Root:
+    root_value: float
+    middle: Middle = field(metadata=flatten)
+    others: List[Leaf] = field(default_factory=list)
+
+CALLS = []
+
+def get_root() -> Root:
+    return Root(1.5, Middle("m", Leaf(7, "x", Tag("t"))), [Leaf(1), Leaf(2, "y", Tag("u"))])
+
+def shift(base: int, step_size: Optional[int] = 1, label: Optional[str] = "dflt", flag: Optional[bool] = None) -> str:
+    CALLS.append((base, step_size, label, flag))
+    return f"{base}/{step_size}/{label}/{flag}"
+'''
+
+
+def flatten_and_null_probe(R):
+    """flattened fields (two levels) execute like serialize; an explicit null argument is passed as None"""
+    import graphql
+    import apischema.cache
+    from apischema import serialize
+    from apischema.graphql import graphql_schema
+    apischema.cache.reset()
+    mod = pyrun.exec_module(FLAT_SRC)
+    info = dict(source=FLAT_SRC)
+    try:
+        schema = graphql_schema(query=[mod.get_root, mod.shift], aliaser=camel)
+        errs = graphql.validate_schema(schema)
+        if errs:
+            R.violation(f"schema with flattened fields does not validate: {errs[0]}", info)
+        q = "{ getRoot { rootValue middleValue leafValue leafOpt tag { name } others { leafValue leafOpt tag { name } } } }"
+        res = graphql.graphql_sync(schema, q)
+        R.count("flatten_probe")
+        want = {"getRoot": serialize(mod.Root, mod.get_root(), aliaser=camel)}
+        if res.errors or res.data != want:
+            R.violation(f"query over flattened fields gives {res.data!r} / {res.errors!r}; serialize gives {want!r}", dict(info, query=q))
+        for args, expected in (("base: 3", (3, 1, "dflt", None)), ("base: 3, stepSize: null", (3, None, "dflt", None)),
+                               ("base: 3, stepSize: 2, label: null", (3, 2, None, None)), ("base: 3, flag: null", (3, 1, "dflt", None)),
+                               ("base: 3, flag: true, label: \"a\"", (3, 1, "a", True))):
+            mod.CALLS.clear()
+            res = graphql.graphql_sync(schema, "{ shift(" + args + ") }")
+            R.count("null_argument_probe")
+            if res.errors or mod.CALLS != [expected]:
+                R.violation(f"shift({args}): the resolver received {mod.CALLS!r} (errors {res.errors!r}); deserialize of the "
+                            f"arguments gives {expected!r}", info)
+    except Exception as e:
+        R.violation(f"{type(e).__name__} in the flatten / null argument probe: {e}", info)
+    finally:
+        pyrun.drop_module(mod)
+        apischema.cache.reset()
 
 
 def replay(data):
